@@ -199,12 +199,12 @@ theorem memfs_leaf_ops_linearizable (d : Dir) (progs : List (List DOp)) (sched :
     (fun a s r _ h => dimpl_walk_ok a s r h) (fun a w s _ _ _ _ => dimpl_commit_ok a w s) d trivial progs sched
   exact ⟨h1, h3⟩
 
-/-! The code before the repair: Remove released the node captured by the walk.  Witness: the file `f` (name 7) is node 1
+/-! The code before the repair: Remove released the node captured by the walk.  Witness: the file `f` (name `[7]`) is node 1
     and has a second name elsewhere (link count 2).  Thread 0 runs Remove(f); thread 1 runs Remove(f) then an exclusive
     create of f.  Schedule: both walk, thread 1 commits its Remove, creates f again (node 2), then thread 0 commits:
     it finds an entry, erases it (node 2 becomes unreachable) and releases node 1 a second time. -/
-def staleDir : Dir := { entries := [(7, (1, false))], nlink := [(1, 2)], next := 2 }
-def staleProgs : List (List DOp) := [[.remove 7], [.remove 7, .createExcl 7]]
+def staleDir : Dir := { entries := [([7], (1, false))], nlink := [(1, 2)], next := 2 }
+def staleProgs : List (List DOp) := [[.remove [7]], [.remove [7], .createExcl [7]]]
 def staleSched : List Nat := [0, 1, 1, 1, 1, 0]
 
 /-- all three calls report success and node 1 ends with link count 0 although its other name still exists -/
@@ -214,14 +214,14 @@ theorem stale_remove_outcome :
   decide
 
 /-- the three interleavings, computed (`interleave2` is defined by well-founded recursion, so `decide` cannot unfold it) -/
-theorem interleave2_stale : interleave2 [.remove 7] [.remove 7, .createExcl 7] =
-    [[(0, .remove 7), (1, .remove 7), (1, .createExcl 7)], [(1, .remove 7), (0, .remove 7), (1, .createExcl 7)],
-     [(1, .remove 7), (1, .createExcl 7), (0, .remove 7)]] := by
+theorem interleave2_stale : interleave2 [.remove [7]] [.remove [7], .createExcl [7]] =
+    [[(0, .remove [7]), (1, .remove [7]), (1, .createExcl [7])], [(1, .remove [7]), (0, .remove [7]), (1, .createExcl [7])],
+     [(1, .remove [7]), (1, .createExcl [7]), (0, .remove [7])]] := by
   simp [interleave2]
 
 /-- no sequential order of the three calls (thread 1's program order kept) gives these results and this state -/
 theorem stale_remove_not_linearizable :
-    ∀ log ∈ interleave2 [.remove 7] [.remove 7, .createExcl 7],
+    ∀ log ∈ interleave2 [.remove [7]] [.remove [7], .createExcl [7]],
       ¬ ((seqRun dspec staleDir (fun _ => []) log).1 = (run (dimpl false) (init staleDir staleProgs) staleSched).1.sh ∧
          (seqRun dspec staleDir (fun _ => []) log).2 0 = [.ok] ∧
          (seqRun dspec staleDir (fun _ => []) log).2 1 = [.ok, .ok]) := by
